@@ -439,7 +439,12 @@ fn main() {
         for (i, r) in recs.iter().enumerate() {
             groups.entry(r.input_key()).or_default().push(i);
         }
-        groups.values().map(|ix| Case { recs: ix.iter().map(|i| &recs[*i]).collect() }).collect()
+        // on a tie between readings the implementation's own ("end") is reported
+        groups.values().map(|ix| {
+            let mut rs: Vec<&Rec> = ix.iter().map(|i| &recs[*i]).collect();
+            rs.sort_by_key(|r| if r.timing == "end" { 0 } else { 1 });
+            Case { recs: rs }
+        }).collect()
     } else {
         recs.iter().map(|r| Case { recs: vec![r] }).collect()
     };
